@@ -162,9 +162,10 @@ def run_map(run, drv):
                 for i in range(6 if quick else (24 if method == "fork" else 5)):
                     cc = gen_case(rng)
                     cc["pool"] = method
-                    # the options of the pool map creates: workers recycled after 1-2 tasks (the remaining chunks go to fresh
-                    # processes), several threads per worker, progress-bar wrapper
-                    cc["extra"] = [{}, {"max_tasks_per_child": 1}, {"max_tasks_per_child": 2, "worker_threads": 2}, {"pbar": True, "worker_threads": 2}][i % 4]
+                    # the options of the pool map creates: several threads per worker, progress-bar wrapper, a task limit per worker
+                    # that is never reached. (A limit that *is* reached is an excluded point, probed separately in the thorough tier:
+                    # upstream's own test of it is skipped as "unstable", see REPORT_C12 §4.)
+                    cc["extra"] = [{}, {"worker_threads": 2}, {"max_tasks_per_child": 1000, "worker_threads": 2}, {"pbar": True}][i % 4]
                     cases.append(cc)
                 # out buffers longer than the input along the dim (regular: tail untouched)
                 for i in range(8 if quick else 40):
@@ -233,6 +234,54 @@ def run_map(run, drv):
             pool.join()
     finally:
         shutil.rmtree(scratch_root, ignore_errors=True)
+
+
+PROBE_MTPC = """
+import sys, torch
+from tensordict import TensorDict
+
+def fn(td):
+    return td.apply(lambda x: x + 1)
+
+if __name__ == "__main__":
+    td = TensorDict({"x": torch.arange(12.).reshape(6, 2)}, [6])
+    r = td.map(fn, dim=0, num_workers=2, chunksize=1, max_tasks_per_child=1, mp_start_method=sys.argv[1])
+    assert (r["x"] == td["x"] + 1).all()
+    print("PROBE-OK")
+"""
+
+
+def probe_max_tasks_per_child(run):
+    """excluded point (thorough tier, in a process of its own): a per-worker task limit that is *reached*. The pool then starts
+    replacement workers, whose initializer waits for a worker id that was never queued (`_proc_init`: `queue.get(timeout=120)` on a
+    queue filled once with `num_workers` ids), and a worker that exits right after its last task takes with it the file descriptors of the
+    tensors it returned (torch's file_descriptor sharing needs the producer alive). Upstream skips its own test of the option as
+    unstable. Reported as a known finding when it hangs or raises; not part of the random stream."""
+    import os
+    import subprocess
+    from common import VERIF
+    env = dict(os.environ)
+    repo = os.environ.get("VERIF_REPO", "/repo")
+    env["PYTHONPATH"] = repo + os.pathsep + env.get("PYTHONPATH", "")
+    script = BUILD / "tmp" / f"c12_probe_{run.seed}_{run.tier}.py"
+    script.parent.mkdir(parents=True, exist_ok=True)
+    script.write_text(PROBE_MTPC)
+    try:
+        for method in ("fork",):
+            run.case(("excluded", "max_tasks_per_child", method), nontrivial=False)
+            try:
+                p = subprocess.run([sys.executable, str(script), method], env=env, capture_output=True, text=True, timeout=45)
+                what = "ok" if "PROBE-OK" in p.stdout else "raised: " + (p.stderr.strip().splitlines() or ["?"])[-1][:160]
+            except subprocess.TimeoutExpired:
+                what = "hangs (no result after 45 s for 6 one-row chunks)"
+            run.count("excluded.max_tasks_per_child", what.split(":")[0].split(" ")[0])
+            if what == "ok":
+                run.oracle_ok("excluded_point(max_tasks_per_child)")
+            else:
+                run.oracle_fail("excluded_point", {"name": "max_tasks_per_child", "start_method": method},
+                                f"map(chunksize=1, num_workers=2, max_tasks_per_child=1) on 6 rows {what}", "excluded:max-tasks-per-child")
+    finally:
+        script.unlink(missing_ok=True)
 
 
 def run_map_ext(run):
